@@ -347,7 +347,7 @@ def generate(rng, index, tier, extra):  # pylint: disable=unused-argument
             from simverif import wirefault
             path = rng.choice(paths)
             raw = rng.choice(corpus.accepted_plus(path) or [b''])
-            faults = wirefault.token_faults(rng, raw) if wirefault.is_text(raw) and rng.random() < 0.6 else \
+            faults = (wirefault.typed_faults(rng, raw) if rng.random() < 0.4 else wirefault.token_faults(rng, raw)) if wirefault.is_text(raw) and rng.random() < 0.6 else \
                 wirefault.gen_faults(rng, raw, max_faults=1)
             spec = ['mutated', path, raw.hex(), faults]
         else:
